@@ -13,6 +13,7 @@ import (
 	"time"
 
 	"github.com/oneconcern/datamon/pkg/cafs"
+	context2 "github.com/oneconcern/datamon/pkg/context"
 	"github.com/oneconcern/datamon/pkg/core"
 	"github.com/oneconcern/datamon/pkg/storage"
 
@@ -57,6 +58,10 @@ type puCase struct {
 	Attempts   []puAttempt           `json:"attempts"`
 	Mid        []puStep              `json:"mid"`
 	DelFaults  []*memstore.FaultRule `json:"delfaults,omitempty"`
+	Extra      []world.File          `json:"extra,omitempty"`   // a bundle in a second context that shares the blob store
+	PageCap    int                   `json:"pagecap,omitempty"` // the blob store caps its listing pages
+	During     []world.File          `json:"during,omitempty"`  // a bundle whose upload starts while the index build prepares, and commits after it
+	ResumeLockRefused bool           `json:"resumelockrefused"`
 	FaultFree  bool                  `json:"faultfree"`
 	Bundles    []puBundle            `json:"bundles"`
 	Index      []string              `json:"index"`     // keys listed by the index chunks
@@ -171,9 +176,26 @@ func puRun(cs *puCase, r *gen.Rand) {
 	orig := map[string][]world.File{}
 	sec := int64(1000)
 	puApply(w, cs.Pre, r, live, orig, &sec, tmp)
+	var w2 *world.World
+	extraID := ""
+	if cs.Extra != nil {
+		w2 = world.New()
+		w2.Blob = w.Blob // another context on the same blob store
+		if err := w2.CreateRepo("rx"); err != nil {
+			panic(err)
+		}
+		extraID = kid(r, 900)
+		if _, err := w2.Upload("rx", world.Consumable(cs.Extra), world.UploadOpts{LeafSize: 64, BundleID: extraID, Message: "x"}); err != nil {
+			panic(err)
+		}
+	}
+	w.Blob.SetPageCap(cs.PageCap)
 	indexed := map[string]bool{}
 	cs.BuildOk = false
 	var buildEnd time.Time
+	_ = buildEnd
+	buildStart := time.Now().UTC() // the index time of a chain of attempts is taken when the first one starts
+	duringID := ""
 	for ai := range cs.Attempts {
 		a := &cs.Attempts[ai]
 		a.Err, a.Panic = "", false
@@ -197,14 +219,53 @@ func puRun(cs *puCase, r *gen.Rand) {
 		wa.WrapMeta = func(s storage.Store) storage.Store { return &memstore.Flaky{Store: s, F: f, Name: "meta"} }
 		wa.WrapBlob = func(s storage.Store) storage.Store { return &memstore.Flaky{Store: s, F: f, Name: "blob"} }
 		dir, _ := os.MkdirTemp(tmp, "kv")
+		bopts := []core.PurgeOption{core.WithPurgeLocalStore(dir), core.WithPurgeLogger(world.Nop),
+			core.WithPurgeIndexChunkSize(cs.Chunk), core.WithPurgeResumeIndex(a.Resume), core.WithPurgeParallel(4)}
+		if w2 != nil {
+			w2a := *w2
+			w2a.WrapMeta = func(s storage.Store) storage.Store { return &memstore.Flaky{Store: s, F: f, Name: "meta2"} }
+			w2a.WrapBlob = wa.WrapBlob
+			bopts = append(bopts, core.WithPurgeExtraContexts([]context2.Stores{w2a.Stores()}))
+		}
+		// an upload that starts while the build prepares (its blobs land then) and writes its metadata once the build is over
+		var release chan struct{}
+		var uploaded chan error
+		if cs.During != nil && ai == len(cs.Attempts)-1 {
+			release, uploaded = make(chan struct{}), make(chan error, 1)
+			blobsDone := make(chan struct{})
+			var once sync.Once
+			f.Hook = func(store, op, key string) {
+				if store != "meta" {
+					return
+				}
+				once.Do(func() {
+					hold := &memstore.Faults{}
+					var first sync.Once
+					hold.Hook = func(st, o, k string) {
+						if st == "meta" && o == "put" && strings.HasPrefix(k, "bundles/") {
+							first.Do(func() { close(blobsDone) })
+							<-release
+						}
+					}
+					wu := *w
+					wu.WrapMeta = func(s storage.Store) storage.Store { return &memstore.Flaky{Store: s, F: hold, Name: "meta"} }
+					go func() {
+						duringID = kid(r, 9000)
+						_, err := wu.Upload("rb", world.Consumable(cs.During), world.UploadOpts{LeafSize: 64, BundleID: duringID, Message: "during"})
+						first.Do(func() { close(blobsDone) })
+						uploaded <- err
+					}()
+					<-blobsDone
+				})
+			}
+		}
 		func() {
 			defer func() {
 				if p := recover(); p != nil {
 					a.Panic, a.Err = true, fmt.Sprint(p)
 				}
 			}()
-			_, err := core.PurgeBuildReverseIndex(wa.Stores(), core.WithPurgeLocalStore(dir), core.WithPurgeLogger(world.Nop),
-				core.WithPurgeIndexChunkSize(cs.Chunk), core.WithPurgeResumeIndex(a.Resume), core.WithPurgeParallel(4))
+			_, err := core.PurgeBuildReverseIndex(wa.Stores(), bopts...)
 			if err != nil {
 				a.Err = err.Error()
 			} else if ai == len(cs.Attempts)-1 {
@@ -213,6 +274,14 @@ func puRun(cs *puCase, r *gen.Rand) {
 		}()
 		os.RemoveAll(dir)
 		buildEnd = time.Now().UTC()
+		if release != nil {
+			close(release)
+			if err := <-uploaded; err != nil {
+				panic(fmt.Sprint("upload during the build failed: ", err))
+			}
+			live["rb"] = append(live["rb"], duringID)
+			orig["rb/"+duringID] = cs.During
+		}
 		for i, rule := range f.Rules {
 			if i < len(a.Faults) {
 				a.Faults[i].Fired = rule.Fired
@@ -254,6 +323,12 @@ func puRun(cs *puCase, r *gen.Rand) {
 			cs.Bundles = append(cs.Bundles, puBundle{Repo: repo, ID: id, Keys: keys, Files: files, Indexed: indexed[repo+"/"+id]})
 		}
 	}
+	if w2 != nil {
+		save := w.Blob
+		_ = save
+		w2keys, w2files := puKeys(w2, "rx", extraID)
+		cs.Bundles = append(cs.Bundles, puBundle{Repo: "rx", ID: extraID, Keys: w2keys, Files: w2files, Indexed: true})
+	}
 	cs.Before, cs.After, cs.DelErr = nil, nil, ""
 	// delete-unused
 	if cs.BuildOk {
@@ -280,8 +355,8 @@ func puRun(cs *puCase, r *gen.Rand) {
 			if err == nil {
 				for _, k := range w.Blob.SortedKeys() {
 					at, _ := w.Blob.GetAttr(context.Background(), k)
-					// newer than the index: written after the index build had ended (nothing is written during it)
-					cs.Before = append(cs.Before, puBlob{Key: k, Newer: at.Updated.After(buildEnd)})
+					// newer than the index: written after the index build had started
+					cs.Before = append(cs.Before, puBlob{Key: k, Newer: at.Updated.After(buildStart)})
 				}
 				os.RemoveAll(dir)
 				dir, _ = os.MkdirTemp(tmp, "kv")
@@ -298,6 +373,11 @@ func puRun(cs *puCase, r *gen.Rand) {
 		cs.After = w.Blob.SortedKeys()
 		for i := range cs.Bundles {
 			b := &cs.Bundles[i]
+			if b.Repo == "rx" {
+				got, err := w2.Download(b.Repo, b.ID, 0, nil)
+				b.Reads = err == nil && sameFiles(got, cs.Extra)
+				continue
+			}
 			got, err := w.Download(b.Repo, b.ID, 0, nil)
 			b.Reads = err == nil && sameFiles(got, orig[b.Repo+"/"+b.ID])
 		}
@@ -322,6 +402,8 @@ func puRun(cs *puCase, r *gen.Rand) {
 	}
 	close(start)
 	wg.Wait()
+	// the lock is held now: an acquisition that is not forced is refused, whatever other options it carries
+	cs.ResumeLockRefused = core.PurgeLock(w.Stores(), core.WithPurgeLogger(world.Nop), core.WithPurgeResumeIndex(true), core.WithPurgeIndexChunkSize(3)) != nil
 	cs.ForceOk = core.PurgeLock(w.Stores(), core.WithPurgeLogger(world.Nop), core.WithPurgeForce(true)) == nil
 	_ = core.PurgeUnlock(w.Stores(), core.WithPurgeLogger(world.Nop))
 }
@@ -357,8 +439,8 @@ func puCoq(cs *puCase) string {
 			atts[i] = fmt.Sprintf("(%v, None)", a.Resume)
 		}
 	}
-	return fmt.Sprintf("{| pc_bundles := [%s]; pc_chunk := %d%%nat; pc_attempts := [%s]; pc_comparable := %v; pc_index := %s; pc_before := [%s]; pc_after := %s; pc_success := %v; pc_panicked := %v; pc_faultfree := %v; pc_lock_tries := %d%%nat; pc_lock_wins := %d%%nat; pc_force_ok := %v |}",
-		strings.Join(bs, ";\n "), cs.Chunk, strings.Join(atts, "; "), true, strs(cs.Index), strings.Join(bf, "; "), strs(cs.After), ok, panicked, cs.FaultFree, cs.LockTries, cs.LockWins, cs.ForceOk)
+	return fmt.Sprintf("{| pc_bundles := [%s]; pc_chunk := %d%%nat; pc_attempts := [%s]; pc_comparable := %v; pc_index := %s; pc_before := [%s]; pc_after := %s; pc_success := %v; pc_panicked := %v; pc_faultfree := %v; pc_lock_tries := %d%%nat; pc_lock_wins := %d%%nat; pc_force_ok := %v; pc_unforced_refused := %v |}",
+		strings.Join(bs, ";\n "), cs.Chunk, strings.Join(atts, "; "), true, strs(cs.Index), strings.Join(bf, "; "), strs(cs.After), ok, panicked, cs.FaultFree, cs.LockTries, cs.LockWins, cs.ForceOk, cs.ResumeLockRefused)
 }
 
 func puHasPurge(steps []puStep) bool {
@@ -444,6 +526,20 @@ func puGen(prop string, r *gen.Rand, i int) *puCase {
 			}
 			cs.FaultFree = false
 		}
+	}
+	if r.Chance(1, 3) { // a second context sharing the blob store
+		cs.Extra = []world.File{{Name: "x/only-here", Data: []byte(fmt.Sprint("only in the second context ", i))}, {Name: "x/shared", Data: []byte(puContents[r.Intn(len(puContents))])}}
+		if prop == "C13" && i%3 == 1 { // whose repositories cannot be listed at first
+			cs.Attempts[len(cs.Attempts)-1].Faults = append(cs.Attempts[len(cs.Attempts)-1].Faults, &memstore.FaultRule{Store: "meta2", Op: "list", Times: 1})
+			cs.FaultFree = false
+		}
+	}
+	if r.Chance(1, 2) {
+		cs.PageCap = r.Range(2, 9)
+	}
+	if prop == "C13" && r.Chance(1, 4) {
+		cs.During = []world.File{{Name: "during/new", Data: []byte(fmt.Sprint("uploaded while the index was being prepared ", i))}}
+		cs.FaultFree = false
 	}
 	// uploads between index and deletion: new content, content of live bundles, content orphaned earlier
 	for j := 0; j < r.Intn(3); j++ {
